@@ -24,9 +24,8 @@
    declarative scope checker of ParserScope.v on the checker's context G (declare / cvisible /
    use_vars / the scope of a block is closed with every variable used), chained by scope_stmt /
    scope_block on the tree; b-pratt's simulation theorem stmt_sim is what transports them along the parser's run.
-   Remaining semantic hypotheses: the typing oracle is silent (types are not modelled), a call
-   statement's first argument does not start with  = . : :=  ([call_head_ok]: true of every expression
-   the formatter can print, not proved here). *)
+   Remaining semantic hypothesis: the typing oracle is silent (types are not modelled).  (That a call
+   statement's first argument does not start with  = . : :=  is proved: rt_head_not_assign.) *)
 From Coq Require Import List String NArith ZArith Bool Arith.
 From EvyV Require Import Base FmtAst Format Pratt Parser ParserRules ParserScope FormatParse FormatParseListProofs
   FormatParseStmtProofs FormatParseBlockProofs.
